@@ -75,7 +75,7 @@ def run(pid, tier):
     # behave (a counterexample is a hypothesis about the code, decided by leg B)
     size = "small" if quick else "large"
     a1 = vel.leg_a("sound", size, d, ["C12", "C12_windows", "TypeOK", "Covers"], props=["Frame"])
-    a2 = vel.leg_a("head", size, d, ["C12"])
+    a2 = vel.leg_a("head", size, d, ["C12"], workers=1)
     cov["legs"]["A_model_sound"] = {"size": size, "states": a1["states"], "distinct": a1["distinct"],
                                     "depth": a1["depth"], "violated": a1["violated"], "wall_s": round(a1["wall_s"], 1)}
     cov["legs"]["A_model_head"] = {"size": size, "states": a2["states"], "distinct": a2["distinct"],
@@ -100,9 +100,10 @@ def run(pid, tier):
     tot_states = tot_trans = tot_edges = 0
     # a graph far larger than the specification predicts (a badly broken implementation): the edge
     # comparison is sampled so that the run stays bounded; the monitor still runs on the whole graph
-    stride = 1 + stats["edges"] // 200000
+    stride = 1 + stats["edges"] // (200000 if quick else 500000)
+    nw = 1 if quick else 6       # the thorough product has some 10^5 states
     for levels, tag0 in IMPL_RUNS:
-        first = vel.impl_tlc(nodes, cases_file, d, levels, "both", tag0 + "-both", stride=stride)
+        first = vel.impl_tlc(nodes, cases_file, d, levels, "both", tag0 + "-both", stride=stride, workers=nw)
         todo = [("both", tag0 + "-both", first)]
         if first["violated"]:
             todo = [(m, "%s-%s" % (tag0, m), vel.impl_tlc(nodes, cases_file, d, levels, m, "%s-%s" % (tag0, m), conform=False))
@@ -142,7 +143,8 @@ def run(pid, tier):
     if not quick:
         bin2 = vel.build_overflow_checks()
         nodes2, stats2 = vel.explore(bin2, cases_file, d, threads=8, out="nodes_ovf.ndjson")
-        r2 = vel.impl_tlc(nodes2, cases_file, d, "all", "both", "ovf-both", stride=1 + stats2["edges"] // 200000)
+        r2 = vel.impl_tlc(nodes2, cases_file, d, "all", "both", "ovf-both", stride=1 + stats2["edges"] // 500000,
+                          workers=nw)
         rep2 = r2["report"]
         cov["legs"]["B_impl_overflow_checks_build"] = {
             "impl_states": rep2["nodes"], "impl_edges": rep2["edges"], "approved_edges": rep2["approved"],
